@@ -179,7 +179,7 @@ class ImplRunner:
             if what == "candles_sum":
                 return wire.enc_val(ind.candles_sum(int(ps.get("length") or 1), name, idx))
         except Exception as e:  # noqa
-            return wire.enc_err(e)
+            return "a" + wire.enc_err(e)
         return "bad-acc"
 
     def run(self, lines):
@@ -314,7 +314,7 @@ class ImplRunner:
             try:
                 return [wire.enc_val(guarded(lambda: fns[ps["fn"]](self.ind.candles, **kw)))]
             except Exception as e:  # noqa
-                return [wire.enc_err(e)]
+                return ["a" + wire.enc_err(e)]
         if op == "hmember":
             ps, _ = split_params(rest)
             try:
@@ -390,7 +390,7 @@ class ImplRunner:
                 if rest[0] == "names":
                     return [" ".join(h.indicators)]
             except Exception as e:  # noqa
-                return [wire.enc_err(e)]
+                return ["a" + wire.enc_err(e)]
             return ["bad-acc"]
         if op == "msnap":
             if self.mgr is None:
